@@ -70,7 +70,6 @@ impl MT290 {
 
         verify_parser_complete(&parser)?;
 
-
         Ok(MT290 {
             field_20,
             field_21,
